@@ -6,6 +6,7 @@ CONSTANTS
   Unwrapped = {}
   DepthRestore = "parent"
   ContextDropped = FALSE
+  CloseFailure = "logged"
 INIT Init
 NEXT Next
 INVARIANTS
